@@ -42,6 +42,8 @@ def mutate(v):
     if isinstance(v, list):
         if not v:
             return None
+        if isinstance(v[-1], dict):
+            return v[:-1]            # a record of the run (e.g. one system's execution) goes missing
         # corrupt the last element (an inconsistent observation) rather than dropping it (a missing one)
         m = mutate(v[-1])
         if m is not None:
@@ -151,16 +153,20 @@ def main():
         n0, v0 = C.validate_trace(tp, module + ".tla", module + ".cfg")
         if v0:
             raise SystemExit("the uncorrupted %s trace is not accepted: %s" % (dom, v0[:2]))
-        # per (event type, field): up to 4 occurrences where a corruption applies (one occurrence can be a
+        # per (event type, field): up to 10 occurrences where a corruption applies (one occurrence can be a
         # case in which the field does not matter, e.g. the handle of a removal that finds nothing);
         # the field is bound if at least one corruption of it is rejected
         done = {}
         for i, ev in enumerate(evs):
             for label, path in targets(ev):
                 key = (ev["op"] + ("/" + str(ev.get("k", ev.get("cls", ""))) if ev["op"] in ("WOp", "SOp") else ""), label)
-                if len(done.get(key, [])) >= 4:
+                if len(done.get(key, [])) >= 10:
                     continue
-                m = mutate(get(ev, path))
+                val = get(ev, path)
+                # (World::is_alive is recorded as 0 / 1, 2 = not asked)
+                m = [1 - x if x in (0, 1) else x for x in val] if label == "obs.walive" else mutate(val)
+                if m == val:
+                    continue
                 if m is None:
                     continue
                 done.setdefault(key, []).append((i, path, m))
